@@ -3,6 +3,7 @@ package main
 // C15: durations, instants, metadata round trips.
 
 import (
+	"strconv"
 	"bytes"
 	"encoding/base64"
 	"encoding/xml"
@@ -52,7 +53,12 @@ func durKey(d int64) string {
 	return "duration-other"
 }
 
-func (c *Ctx) durParse(s string) {
+func (c *Ctx) durParse(s string) { c.durParseWant(s, "") }
+
+// durParseWant: `want` (when non-empty) is the value the generator itself assembled the string from — decimal
+// fields, 24 h days, fraction truncated to the nanosecond — so a reader that misreads a field is a failing input
+// by the property's own words ("all grammar-generated duration strings"), not only a model disagreement
+func (c *Ctx) durParseWant(s string, want string) {
 	impl := safely(func() string {
 		var d saml.Duration
 		if err := d.UnmarshalText([]byte(s)); err != nil {
@@ -60,7 +66,11 @@ func (c *Ctx) durParse(s string) {
 		}
 		return "ok " + fmt.Sprint(int64(d))
 	})
-	c.emit("durparse", []string{encStr(s)}, impl, "")
+	orc := ""
+	if want != "" && impl != want {
+		orc = "key=duration-grammar-value Duration.UnmarshalText(" + strconv.Quote(s) + ") = " + impl + ", the string was generated from " + want
+	}
+	c.emit("durparse", []string{encStr(s)}, impl, orc)
 }
 
 func (c *Ctx) genC15() {
@@ -143,24 +153,42 @@ func (c *Ctx) genC15() {
 		if c.chance(0.2) {
 			sb.WriteString("-")
 		}
+		neg := sb.Len() > 0
 		sb.WriteString("P")
+		// the value the string is assembled from (known = every field small and decimal, no calendar units)
+		known, fields, total := true, 0, int64(0)
+		last := int64(0)
 		num := func() string {
-			switch c.rng.Intn(6) {
+			switch c.rng.Intn(7) {
 			case 0:
-				return fmt.Sprint(c.rng.Intn(10))
+				last = int64(c.rng.Intn(10))
+				return fmt.Sprint(last)
 			case 1:
-				return fmt.Sprint(c.rng.Intn(100000))
+				last = int64(c.rng.Intn(100000))
+				return fmt.Sprint(last)
 			case 2:
+				known = false
 				return fmt.Sprint(c.rng.Uint64())
 			case 3:
-				return "0" + fmt.Sprint(c.rng.Intn(100))
+				last = int64(c.rng.Intn(100))
+				return "0" + fmt.Sprint(last)
+			case 4:
+				last = int64(c.rng.Intn(1000))
+				return strings.Repeat("0", 1+c.rng.Intn(3)) + fmt.Sprint(last)
 			default:
-				return fmt.Sprint(c.rng.Intn(61))
+				last = int64(c.rng.Intn(61))
+				return fmt.Sprint(last)
 			}
 		}
 		for _, u := range []string{"Y", "M", "D"} {
 			if c.chance(0.3) {
 				sb.WriteString(num() + u)
+				fields++
+				if u == "D" {
+					total += last * 24 * hr
+				} else {
+					known = false // the length of a year / month is the library's choice
+				}
 			}
 		}
 		if c.chance(0.7) {
@@ -168,17 +196,38 @@ func (c *Ctx) genC15() {
 			for _, u := range []string{"H", "M"} {
 				if c.chance(0.4) {
 					sb.WriteString(num() + u)
+					fields++
+					if u == "H" {
+						total += last * hr
+					} else {
+						total += last * min
+					}
 				}
 			}
 			if c.chance(0.6) {
 				sb.WriteString(num())
+				fields++
+				total += last * sec
 				if c.chance(0.6) {
-					sb.WriteString("." + strings.Repeat("0", c.rng.Intn(3)) + fmt.Sprint(c.rng.Intn(1000000)) + strings.Repeat("0", c.rng.Intn(4)))
+					frac := strings.Repeat("0", c.rng.Intn(3)) + fmt.Sprint(c.rng.Intn(1000000)) + strings.Repeat("0", c.rng.Intn(4))
+					sb.WriteString("." + frac)
+					f9 := (frac + "000000000")[:9]
+					v, _ := strconv.ParseInt(f9, 10, 64)
+					total += v
 				}
 				sb.WriteString("S")
+			} else if strings.HasSuffix(sb.String(), "T") {
+				known = false // "…T" with nothing after it: whether that is a form is not what this oracle is about
 			}
 		}
 		s := sb.String()
+		want := ""
+		if known && fields > 0 {
+			if neg {
+				total = -total
+			}
+			want = "ok " + fmt.Sprint(total)
+		}
 		kind := "grammar"
 		if c.chance(0.25) && len(s) > 1 { // mutate one position
 			kind = "mutated"
@@ -196,8 +245,13 @@ func (c *Ctx) genC15() {
 			}
 			s = string(b)
 		}
+		if kind != "grammar" {
+			want = ""
+		} else if want != "" {
+			c.count("durparse-class", "grammar-with-known-value")
+		}
 		c.count("durparse-class", kind)
-		c.durParse(s)
+		c.durParseWant(s, want)
 	}
 }
 
